@@ -5,24 +5,25 @@
 set -u
 id="$1"; prop="$2"; patch="$3"; needs="$4"; runre="$5"; pkgs="${6//,/ }"; shift 6
 export GOFLAGS=-mod=mod GOPROXY=off GOSUMDB=off GOTOOLCHAIN=local; unset GOWORK
-WT=/tmp/wt/verify
+WT=${VS_WT:-/tmp/wt/verify-$id}
+L=/tmp/vs_$id
 git -C /repo worktree remove --force $WT 2>/dev/null
 git -C /repo worktree add -q --detach $WT HEAD || exit 2
 cd $WT
 demos=()
 for pair in "$@"; do src="${pair%%:*}"; dst="${pair##*:}"; cp "$src" "$WT/$dst/" || exit 2; demos+=("$dst/$(basename "$src")"); done
 echo "== demonstration WITHOUT the change"
-go test -vet=off -count=1 ${VS_TESTFLAGS:-} -run "$runre" $pkgs 2>&1 | tail -4 | tee /tmp/vs_without.log
-without_ok=$(grep -c "^ok" /tmp/vs_without.log)
+go test -vet=off -count=1 ${VS_TESTFLAGS:-} -run "$runre" $pkgs 2>&1 | tail -4 | tee ${L}_without.log
+without_ok=$(grep -c "^ok" ${L}_without.log)
 git apply "$patch" || { echo "PATCH DOES NOT APPLY"; exit 2; }
 echo "== build WITH the change"; go build ./... 2>&1 | tail -3
 echo "== existing suite WITH the change (demo files moved away)"
 for d in "${demos[@]}"; do mv "$WT/$d" "$WT/$d.away"; done
-go test -vet=off -count=1 ./... 2>&1 | grep -v "^ok\|no test files" | grep -v "TestGorumsStability\|TestGenerateProtoFiles" | tail -8 | tee /tmp/vs_suite.log
+go test -vet=off -count=1 ./... 2>&1 | grep -v "^ok\|no test files" | grep -v "TestGorumsStability\|TestGenerateProtoFiles" | tail -8 | tee ${L}_suite.log
 for d in "${demos[@]}"; do mv "$WT/$d.away" "$WT/$d"; done
 echo "== demonstration WITH the change"
-go test -vet=off -count=1 ${VS_TESTFLAGS:-} -run "$runre" $pkgs 2>&1 | tail -6 | tee /tmp/vs_with.log
-with_fail=$(grep -c "^FAIL\|^--- FAIL\|panic:" /tmp/vs_with.log)
+go test -vet=off -count=1 ${VS_TESTFLAGS:-} -run "$runre" $pkgs 2>&1 | tail -6 | tee ${L}_with.log
+with_fail=$(grep -c "^FAIL\|^--- FAIL\|panic:" ${L}_with.log)
 cd /verif
 if [ "$without_ok" -ge 1 ] && [ "$with_fail" -ge 1 ]; then
   mkdir -p /verif/seeded/$id
@@ -48,3 +49,4 @@ else
   echo "== NOT CONFIRMED (without_ok=$without_ok with_fail=$with_fail)"
 fi
 git -C /repo worktree remove --force $WT
+rm -f ${L}_*.log
